@@ -279,9 +279,13 @@ func HarnessC02_Interleave() {
 		todo = append(todo, pending{c, c02Payload()})
 	}
 	startedA, startedB := false, false
+	rescaled := false
 	for {
-		// candidates: start A, start B, continue A, continue B
+		// candidates: start A, start B, continue A, continue B, a second Set Chunk Size
 		var cand []int
+		if !rescaled && (startedA || startedB) {
+			cand = append(cand, 4)
+		}
 		if !startedA {
 			cand = append(cand, 0)
 		}
@@ -312,6 +316,17 @@ func HarnessC02_Interleave() {
 			s.cont(a)
 		case 3:
 			s.cont(b)
+		case 4:
+			// Set Chunk Size between the chunks of unfinished messages: effective for the chunks
+			// that follow it, on every chunk stream
+			cs2 := vU32()
+			vAssume(vAnd(cs2 >= 1, cs2 <= 0x7fffffff))
+			s.first(ctl, 3, 0, 4, 1, 0, be32(cs2))
+			for ctl.cur != nil {
+				s.cont(ctl) // the announcement itself is still chunked with the old size
+			}
+			s.chunkSize = cs2
+			rescaled = true
 		}
 	}
 	exp := s.done
